@@ -667,6 +667,15 @@ func (m *metadataAPI) ReportLeader(ctx context.Context, req *proto.ReportLeaderO
 				leader, epoch, req.Leader, req.LeaderEpoch))
 	}
 
+	// Ensure the witness is actually an in-sync follower. Only reports from
+	// ISR members other than the leader count towards the failover quorum.
+	if req.Replica == leader || !partition.inISR(req.Replica) {
+		return status.New(
+			codes.FailedPrecondition,
+			fmt.Sprintf("Replica %s is not an in-sync follower for partition [stream=%s, partition=%d]",
+				req.Replica, req.Stream, req.Partition))
+	}
+
 	m.mu.Lock()
 	failover := m.partitionFailovers[partition]
 	if failover == nil {
